@@ -31,6 +31,9 @@ func (cb *CBLC) parseIndexSubTables(src []byte) error {
 			}
 			numGlyphs := int(subtable.LastGlyph) - int(subtable.FirstGlyph) + 1
 			subtableStart := start + int(subtable.additionalOffsetToIndexSubtable)
+			if L := len(src); L < subtableStart {
+				return fmt.Errorf("EOF: expected length: %d, got %d", subtableStart, L)
+			}
 
 			sizeSubtables[j].FirstGlyph = subtable.FirstGlyph
 			sizeSubtables[j].LastGlyph = subtable.LastGlyph
